@@ -192,16 +192,15 @@ func vH_C06_stream_replay() {
 	l := vNondetInt("len")
 	vAssume(l >= 72 && l <= 200)
 	conn := &vFakeConn{in: make([]byte, l)}
-	server := &StreamUnderlay{baseUnderlay: *newBaseUnderlay(false, 1400, nil), conn: conn, sessionCleanTicker: time.NewTicker(sessionCleanInterval)}
+	server := &StreamUnderlay{baseUnderlay: *newBaseUnderlay(false, 1400, nil), conn: conn}
 	vDiscoveryOK = vNondetBool("discovery.ok")
 	vDupSeen, vDupAnswer = false, false
-	err := server.RunEventLoop(context.Background()) // vStubIsDuplicateFirst: the first read IS reported as a replay
-	vAssert(err != nil, "the event loop ends")
-	vAssert(stderror.GetErrorType(err) == stderror.REPLAY_ERROR, "a replayed first segment ends the connection with a replay error, whether or not it decrypts")
+	seg, err := server.readOneSegment() // vStubIsDuplicateFirst: the first read IS reported as a replay
+	vAssert(seg == nil && err != nil, "a replayed first segment is never passed on")
+	vAssert(stderror.GetErrorType(err) == stderror.REPLAY_ERROR, "it ends the connection with a replay error, whether or not it decrypts (the event loop then drains and closes without writing: H5.1)")
 	vAssert(conn.writes == 0 && len(conn.out) == 0, "not a single byte is sent in reply to a replay")
 	vAssert(server.SessionCount() == 0 && len(server.readySessions) == 0, "a replay opens no session and reaches no application")
 	vAssert(server.send == nil, "no send cipher is derived for a replayed connection")
-	vAssert(conn.closed, "the connection is closed")
 }
 
 var vDupFirst bool
